@@ -6,9 +6,21 @@
 //! continues with the rest.  A crash is data, never a harness failure.
 use serde_json::{json, Value};
 use std::io::{BufRead, BufReader, Write};
+use std::os::unix::process::CommandExt;
 use std::process::{Command, Stdio};
 use std::sync::mpsc;
 use std::time::Duration;
+
+/// workers may not take more than 8 GiB of address space: runaway allocation of the code under test is an abort, not an OOM of the machine
+fn limit_memory(cmd: &mut Command) {
+    unsafe {
+        cmd.pre_exec(|| {
+            let lim = libc::rlimit { rlim_cur: 8 << 30, rlim_max: 8 << 30 };
+            libc::setrlimit(libc::RLIMIT_AS, &lim);
+            Ok(())
+        });
+    }
+}
 
 pub fn run(args: &[String]) {
     let sub = &args[0];
@@ -21,15 +33,10 @@ pub fn run(args: &[String]) {
     let mut out = std::io::BufWriter::new(out.lock());
     let mut next = 0usize;
     while next < records.len() {
-        let mut child = Command::new(&exe)
-            .arg(sub)
-            .args(rest)
-            .env("SNT_FLUSH", "1")
-            .stdin(Stdio::piped())
-            .stdout(Stdio::piped())
-            .stderr(Stdio::null())
-            .spawn()
-            .expect("spawn worker");
+        let mut cmd = Command::new(&exe);
+        cmd.arg(sub).args(rest).env("SNT_FLUSH", "1").stdin(Stdio::piped()).stdout(Stdio::piped()).stderr(Stdio::null());
+        limit_memory(&mut cmd);
+        let mut child = cmd.spawn().expect("spawn worker");
         let mut cin = child.stdin.take().unwrap();
         let cout = child.stdout.take().unwrap();
         let batch: Vec<String> = records[next..].to_vec();
@@ -76,6 +83,11 @@ pub fn run(args: &[String]) {
         let _ = child.wait();
         let _ = reader.join();
         let _ = feeder.join();
+        if next < records.len() && outcome == "timeout" && confirm_alone(&exe, sub, rest, &records[next], timeout * 4, &mut out) {
+            // the machine was busy: alone and with four times the patience the record was answered
+            next += 1;
+            continue;
+        }
         if next < records.len() {
             // the record in flight killed the worker
             let rec: Value = serde_json::from_str(&records[next]).unwrap_or(Value::Null);
@@ -87,4 +99,38 @@ pub fn run(args: &[String]) {
         }
     }
     out.flush().unwrap();
+}
+
+/// Re-run one record alone with a longer timeout; true (and the line is written) if it was answered.
+fn confirm_alone(exe: &std::path::Path, sub: &str, rest: &[String], record: &str, timeout: Duration, out: &mut impl Write) -> bool {
+    let mut cmd = Command::new(exe);
+    cmd.arg(sub).args(rest).env("SNT_FLUSH", "1").stdin(Stdio::piped()).stdout(Stdio::piped()).stderr(Stdio::null());
+    limit_memory(&mut cmd);
+    let mut child = match cmd.spawn() {
+        Ok(c) => c,
+        Err(_) => return false,
+    };
+    let mut cin = child.stdin.take().unwrap();
+    let cout = child.stdout.take().unwrap();
+    let _ = cin.write_all(record.as_bytes());
+    let _ = cin.write_all(b"\n");
+    drop(cin);
+    let (tx, rx) = mpsc::channel::<String>();
+    let reader = std::thread::spawn(move || {
+        if let Some(Ok(l)) = BufReader::new(cout).lines().next() {
+            let _ = tx.send(l);
+        }
+    });
+    let got = rx.recv_timeout(timeout).ok();
+    let _ = child.kill();
+    let _ = child.wait();
+    let _ = reader.join();
+    match got {
+        Some(line) => {
+            out.write_all(line.as_bytes()).unwrap();
+            out.write_all(b"\n").unwrap();
+            true
+        }
+        None => false,
+    }
 }
